@@ -126,6 +126,11 @@ pub fn build_workload_biased(
 /// null element, a value of another base type). Whether such a map is accepted is the engine's
 /// call (argument validation, C12 is not claimed here): if it refuses, the case is discarded;
 /// if it accepts, C09 says execution must still not panic.
+thread_local! {
+    /// set by run_case for C04: half of the cases draw more filters per property
+    pub static MANY_FILTERS: std::cell::Cell<bool> = const { std::cell::Cell::new(false) };
+}
+
 pub fn build_workload_full(
     tapes: &mut Tapes,
     bias_fold_count: bool,
@@ -163,6 +168,10 @@ pub fn build_workload_full(
     }
     if adversarial_args || tapes.query.draw(4) == 0 {
         cfg.bias_var_reuse = true;
+    }
+    if MANY_FILTERS.with(|m| m.get()) && tapes.query.draw(2) == 0 {
+        cfg.bias_many_filters = true;
+        cfg.f_filters = true;
     }
     let q = gen_query(&world, &mut tapes.query, cfg);
     let mut args = gen_args(&q, &world, &mut tapes.args);
